@@ -232,9 +232,43 @@ func execute(sc Scenario, rng *rand.Rand) (rec, error) {
 		})
 	}
 	var submux *res.Mux
+	var lateReg func() // the last registration of all, made on the mounted mux after a lookup through the service
 	if nv.submux {
 		submux = res.NewMux("")
-		if pv := core.Catch(func() { submux.Handle(nv.pattern, opts...); s.Mount("mm", submux) }); pv != nil {
+		if pv := core.Catch(func() {
+			if len(sc.Script)%2 == 0 {
+				submux.Handle(nv.pattern, opts...)
+				s.Mount("mm", submux)
+				return
+			}
+			// the mux is mounted with a less specific pattern only (no access handler, another call handler);
+			// the resource is looked up through the service; then the pattern of this scenario is registered
+			// on the mounted mux itself: from now on it is the most specific match
+			stale := func(r res.CallRequest) {
+				rn.mu.Lock()
+				rn.inv = "stale-generic"
+				rn.mu.Unlock()
+				r.OK(nil)
+			}
+			submux.Handle("$kind.$id", res.Call("*", stale), res.GetResource(func(r res.GetRequest) {
+				rn.mu.Lock()
+				rn.inv = "stale-generic"
+				rn.mu.Unlock()
+				r.NotFound()
+			}), res.Auth("*", func(r res.AuthRequest) {
+				rn.mu.Lock()
+				rn.inv = "stale-generic"
+				rn.mu.Unlock()
+				r.OK(nil)
+			}))
+			s.Mount("mm", submux)
+			lateReg = func() {
+				s.GetHandler(nv.name)
+				s.Resource(nv.name)
+				s.With(nv.name, func(res.Resource) {})
+				submux.Handle(nv.pattern, opts...)
+			}
+		}); pv != nil {
 			return nil, fmt.Errorf("registration panicked: %v", pv)
 		}
 	} else if sc.Shared {
@@ -269,6 +303,11 @@ func execute(sc Scenario, rng *rand.Rand) (rec, error) {
 	}
 	s.Handle("probe", res.GetModel(func(r res.ModelRequest) { r.Model(map[string]int{"ok": 1}) }), res.Access(res.AccessGranted),
 		res.Call("m", func(r res.CallRequest) { r.OK(nil) }), res.Auth("m", func(r res.AuthRequest) { r.OK(nil) }))
+	if lateReg != nil {
+		if pv := core.Catch(lateReg); pv != nil {
+			return nil, fmt.Errorf("registration panicked: %v", pv)
+		}
+	}
 	addListener := s.AddListener
 	if submux != nil {
 		// a first lookup through the service - after everything else is registered - before the
